@@ -23,7 +23,8 @@ import (
 
 type (
 	configFiles struct {
-		byPath map[string]io.Reader
+		byPath map[string][]byte
+		good   map[string][]*namespace.Namespace
 		sync.Mutex
 	}
 
@@ -49,7 +50,7 @@ func newOPLConfigWatcher(ctx context.Context, c *Config, target string) (*oplCon
 	nw := &oplConfigWatcher{
 		logger:                 c.l,
 		target:                 target,
-		files:                  configFiles{byPath: make(map[string]io.Reader)},
+		files:                  configFiles{byPath: make(map[string][]byte)},
 		memoryNamespaceManager: *NewMemoryNamespaceManager(),
 	}
 
@@ -66,7 +67,7 @@ func newOPLConfigWatcher(ctx context.Context, c *Config, target string) (*oplCon
 		if err != nil {
 			return nil, err
 		}
-		nw.files.byPath[targetUrl.String()] = file
+		nw.files.byPath[targetUrl.String()] = file.Bytes()
 		nw.parseFiles()
 		return nw, err
 	case "http", "https":
@@ -82,7 +83,8 @@ func newOPLConfigWatcher(ctx context.Context, c *Config, target string) (*oplCon
 			cache.SetWithTTL(target, b, int64(cap(b)), 30*time.Minute)
 			file = bytes.NewReader(b)
 		}
-		nw.files.byPath[targetUrl.String()] = file
+		data, _ := io.ReadAll(file)
+		nw.files.byPath[targetUrl.String()] = data
 		nw.parseFiles()
 		return nw, err
 	default:
@@ -95,7 +97,17 @@ func (nw *oplConfigWatcher) handleChange(e *watcherx.ChangeEvent) {
 	// waiting for the updated values
 	nw.files.Lock()
 	defer nw.files.Unlock()
-	nw.files.byPath[e.Source()] = e.Reader()
+	// The content is kept as bytes: the event's reader can be read only once,
+	// but every file is parsed again on every event.
+	data, err := io.ReadAll(e.Reader())
+	if err != nil {
+		nw.logger.
+			WithError(err).
+			Errorf("Failed to read OPL config file %s at target %s.",
+				e.Source(), nw.target)
+		return
+	}
+	nw.files.byPath[e.Source()] = data
 	nw.parseFiles()
 }
 
@@ -103,6 +115,7 @@ func (nw *oplConfigWatcher) handleRemove(e *watcherx.RemoveEvent) {
 	nw.files.Lock()
 	defer nw.files.Unlock()
 	delete(nw.files.byPath, e.Source())
+	delete(nw.files.good, e.Source())
 	nw.parseFiles()
 }
 
@@ -114,37 +127,36 @@ func (nw *oplConfigWatcher) handleError(e *watcherx.ErrorEvent) {
 }
 
 // parseFiles loops through all files, parsing each and getting the namespaces.
-// It then sets the namespaces only if there were no errors.
+// A file that does not parse keeps contributing the namespaces of its last
+// version that did, so an invalid edit of one file neither hides the other
+// files nor blocks their updates.
 //
-// The caller must  hold the lock to nw.files.
+// The caller must hold the lock to nw.files.
 func (nw *oplConfigWatcher) parseFiles() {
-	var (
-		namespaces = make([]*namespace.Namespace, 0)
-		errs       []error
-	)
-	for _, reader := range nw.files.byPath {
-		content, err := io.ReadAll(reader)
-		if err != nil {
-			errs = append(errs, err)
+	if nw.files.good == nil {
+		nw.files.good = map[string][]*namespace.Namespace{}
+	}
+	for path, content := range nw.files.byPath {
+		nn, ee := schema.Parse(string(content))
+		if len(ee) > 0 {
+			for _, err := range ee {
+				nw.logger.
+					WithError(err).
+					Errorf("Failed to parse OPL config files at target %s.",
+						nw.target)
+			}
 			continue
 		}
-		nn, ee := schema.Parse(string(content))
-		for _, e := range ee {
-			errs = append(errs, e)
-		}
+		var l []*namespace.Namespace
 		for _, n := range nn {
 			n := n // alias because we want a reference
-			namespaces = append(namespaces, &n)
+			l = append(l, &n)
 		}
+		nw.files.good[path] = l
 	}
-	if len(errs) > 0 {
-		for _, err := range errs {
-			nw.logger.
-				WithError(err).
-				Errorf("Failed to parse OPL config files at target %s.",
-					nw.target)
-		}
-		return
+	namespaces := make([]*namespace.Namespace, 0)
+	for _, l := range nw.files.good {
+		namespaces = append(namespaces, l...)
 	}
 	nw.set(namespaces)
 }
